@@ -40,6 +40,11 @@ var (
 	warnPendingMessagesCount = 32
 
 	PathToOcsSignalingBackend = "ocs/v2.php/apps/spreed/api/v1/signaling/backend"
+
+	// Returned if a publisher / subscriber was created for a session that has
+	// been closed or has left the room / call in the meantime.
+	ErrSessionClosed = fmt.Errorf("session is closed")
+	ErrSessionLeft   = fmt.Errorf("session left the room or call")
 )
 
 const (
@@ -87,6 +92,9 @@ type ClientSession struct {
 
 	publishers  map[StreamType]McuPublisher
 	subscribers map[string]McuSubscriber
+	// Incremented (with "mu" held) whenever the MCU objects of the session are
+	// released, i.e. the session left its room, left the call or was closed.
+	mcuGeneration uint64
 
 	pendingClientMessages        []*ServerMessage
 	hasPendingChat               bool
@@ -378,6 +386,7 @@ func (s *ClientSession) getRoomJoinTime() time.Time {
 }
 
 func (s *ClientSession) releaseMcuObjects() {
+	s.mcuGeneration++
 	if len(s.publishers) > 0 {
 		go func(publishers map[StreamType]McuPublisher) {
 			ctx := context.Background()
@@ -396,6 +405,18 @@ func (s *ClientSession) releaseMcuObjects() {
 		}(s.subscribers)
 		s.subscribers = nil
 	}
+}
+
+// checkMcuGenerationLocked checks that the session was not closed and did not
+// release its MCU objects (leave room / leave call / close) since "generation"
+// was read. Must be called with "mu" held.
+func (s *ClientSession) checkMcuGenerationLocked(generation uint64) error {
+	if s.ctx.Err() != nil {
+		return ErrSessionClosed
+	} else if s.mcuGeneration != generation {
+		return ErrSessionLeft
+	}
+	return nil
 }
 
 func (s *ClientSession) Close() {
@@ -900,8 +921,8 @@ func (s *ClientSession) GetOrCreatePublisher(ctx context.Context, mcu Mcu, strea
 	publisher, found := s.publishers[streamType]
 	if !found {
 		client := s.getClientUnlocked()
+		generation := s.mcuGeneration
 		s.mu.Unlock()
-		defer s.mu.Lock()
 
 		settings := NewPublisherSettings{
 			Bitrate:    data.Bitrate,
@@ -927,7 +948,20 @@ func (s *ClientSession) GetOrCreatePublisher(ctx context.Context, mcu Mcu, strea
 		}
 		var err error
 		publisher, err = mcu.NewPublisher(ctx, s, s.PublicId(), data.Sid, streamType, settings, client)
+		s.mu.Lock()
 		if err != nil {
+			return nil, err
+		}
+		// The session may have left the room / call, may have been closed or may
+		// have lost the permission while the publisher was being created.
+		if err = s.checkMcuGenerationLocked(generation); err == nil {
+			_, err = s.checkOfferTypeLocked(streamType, data)
+		}
+		if err != nil {
+			go func(pub McuPublisher) {
+				closeCtx := context.Background()
+				pub.Close(closeCtx)
+			}(publisher)
 			return nil, err
 		}
 		if s.publishers == nil {
@@ -1001,11 +1035,21 @@ func (s *ClientSession) GetOrCreateSubscriber(ctx context.Context, mcu Mcu, id s
 	subscriber, found := s.subscribers[getStreamId(id, streamType)]
 	if !found {
 		client := s.getClientUnlocked()
+		generation := s.mcuGeneration
 		s.mu.Unlock()
 		var err error
 		subscriber, err = mcu.NewSubscriber(ctx, s, id, streamType, client)
 		s.mu.Lock()
 		if err != nil {
+			return nil, err
+		}
+		// The session may have left the room / call or may have been closed
+		// while the subscriber was being created.
+		if err := s.checkMcuGenerationLocked(generation); err != nil {
+			go func(sub McuSubscriber) {
+				closeCtx := context.Background()
+				sub.Close(closeCtx)
+			}(subscriber)
 			return nil, err
 		}
 		if s.subscribers == nil {
